@@ -87,6 +87,15 @@ def pinned_cases(thorough):
     # the historical straddling-segment case: two 60-command segments, one session
     case("straddle-2x60", chain_dag(3), [1], [1, 2, 3], [ch(1), ch(60), ch(60)], "R", "max",
          layB={"seed": 5, "frag": 0, "commit_every": 60, "flush_den": 0})
+    # two parallel 70-command segments, each with a dependent segment, all inside the responder's
+    # max-cut window: the response limit falls inside the second parallel segment and its child comes
+    # in the next response (a responder that skips the rest of a partly sent segment — the historical
+    # straddling-segment bug — breaks parents-first here)
+    cut3 = {"seed": 5, "frag": 0, "commit_every": 0, "flush_den": 0, "node_cut": True}
+    fork = [[], [1], [2], [2], [3], [4]]
+    for bufs in ("max", "retry"):
+        case("straddle-fork-70-" + bufs, fork, [1, 2], [1, 2, 3, 4, 5, 6], [ch(1), ch(20), ch(70), ch(70), ch(10), ch(10)],
+             "R", bufs, layB=cut3)
     # > 100 commands per response, > 1 response per session, ping-pong of two diverged chains
     case("diverged-chains-130-170", [[], [1], [1]], [1, 2], [1, 3], [ch(1), ch(130), ch(170)], "R", "max", pingpong=True)
     case("diverged-chains-130-170-T", [[], [1], [1]], [1, 2], [1, 3], [ch(1), ch(130), ch(170)], "T", "retry", pingpong=True)
